@@ -316,11 +316,15 @@ ClDone ==
 
 \* ------------------------------------------------------------------ crash
 CutOptions(w) == IF TornTails THEN wals[w].synced..Len(wals[w].recs) ELSE {Len(wals[w].recs)}
+\* every choice of one cut per wal file (built up file by file: the plain function set would be huge)
+RECURSIVE CutFns(_)
+CutFns(D) == IF D = {} THEN {[x \in {} |-> 0]}
+             ELSE LET w == CHOOSE x \in D : TRUE IN
+                  {[x \in (DOMAIN f) \cup {w} |-> IF x = w THEN c ELSE f[x]] : f \in CutFns(D \ {w}), c \in CutOptions(w)}
 Crash ==
     /\ crashes < MaxCrashes /\ phase # "down"
     /\ crashes' = crashes + 1
-    /\ \E cut \in [DOMAIN wals -> 0..(2 * MaxTxn * Cardinality(Keys))] :
-         /\ \A w \in DOMAIN wals : cut[w] \in CutOptions(w)
+    /\ \E cut \in CutFns(DOMAIN wals) :
          /\ wals' = [w \in DOMAIN wals |-> [recs |-> SubSeq(wals[w].recs, 1, cut[w]), synced |-> cut[w]]]
          /\ \E rg \in SUBSET {w \in DOMAIN wals : cut[w] < Len(wals[w].recs)} : ragged' = rg
     /\ \E lost \in SUBSET {tb.id : tb \in {x \in tabs : x.data /\ ~x.synced /\ TornTails}} :
